@@ -536,6 +536,19 @@ func (a *AddrManager) updateManagedAddress(dbTransaction db.ReadTransaction, man
 	return nil
 }
 
+// setManagedAddresses records newly issued addresses together with the branch counters
+// that were stored with them; it does not touch the store.
+func (a *AddrManager) setManagedAddresses(managedAddresses []*ManagedAddress, inChildNum, exChildNum uint32) {
+	a.mu.Lock()
+	defer a.mu.Unlock()
+
+	for _, managedAddress := range managedAddresses {
+		a.addrs[managedAddress.address] = managedAddress
+	}
+	a.branchInfo.nextExternalIndex = exChildNum
+	a.branchInfo.nextInternalIndex = inChildNum
+}
+
 // changePrivPassphrase re-encrypts the private crypto key of the keystore under newMasterPrivKey, stores it with the
 // new master key parameters and returns the stored ciphertext.
 func (a *AddrManager) changePrivPassphrase(amBucket db.Bucket, oldPrivPass []byte, newMasterPrivKey *snacl.SecretKey) ([]byte, error) {
